@@ -1197,6 +1197,10 @@ where
             ClassSetOperator::Intersection => {
                 result.codepoints = self.close_over_case(result.codepoints);
                 loop {
+                    // ClassIntersection :: ... && [lookahead ≠ &] ClassSetOperand
+                    if self.peek() == Some(0x26 /* & */) {
+                        return error("Unexpected character in class set intersection");
+                    }
                     let operand = self.consume_class_set_operand(in_negated_class)?;
                     let operand = self.fold_class_set_operand(operand);
                     result.intersect_operand(operand);
@@ -1399,8 +1403,8 @@ where
                 }
             }
             // [lookahead ∉ ClassSetReservedDoublePunctuator] SourceCharacter but not ClassSetSyntaxCharacter
-            0x28 /* ( */ | 0x29 /* ) */ | 0x7B /* { */ | 0x7D /* } */ | 0x2F /* / */
-            | 0x2D /* - */ | 0x7C /* | */ => error("Invalid class set character"),
+            0x28 /* ( */ | 0x29 /* ) */ | 0x5B /* [ */ | 0x5D /* ] */ | 0x7B /* { */ | 0x7D /* } */
+            | 0x2F /* / */ | 0x2D /* - */ | 0x7C /* | */ => error("Invalid class set character"),
             _ => {
                 // A ClassSetReservedDoublePunctuator is the same punctuator twice (&&, !!, ##, ...).
                 if Self::is_class_set_reserved_double_punctuator(cp) && self.peek() == Some(cp) {
